@@ -1732,6 +1732,9 @@ class Union(OR):
     ) -> Iterable[OperationResult]:
         sources = sources or {}
         self._eval_parent_ = parent
+        # a previous iterator over this node may have been abandoned inside a branch
+        self.left_evaluated = False
+        self.right_evaluated = False
 
         yield from self.evaluate_left(sources)
         # the second pass only adds solutions: where the right operand is false the first pass has already decided
@@ -1755,6 +1758,9 @@ class ElseIf(OR):
         """
         sources = sources or {}
         self._eval_parent_ = parent
+        # a previous iterator over this node may have been abandoned inside a branch
+        self.left_evaluated = False
+        self.right_evaluated = False
         yield from self.evaluate_left(sources)
 
 
